@@ -2696,6 +2696,7 @@ def fmt_overrides(R):
         key = z3.simplify(x).sexpr()
         if key not in memo:
             memo[key] = z3.String(f'decimal({key[:24]})#{len(memo)}')
+            R.vm.__dict__.setdefault('dec_terms', {})[key] = z3.simplify(x)
         return memo[key]
 
     def append(vm, st, buf_ptr, piece):
@@ -2801,7 +2802,7 @@ def k_error_display(R, maxpath):
     R.vm.overrides = fmt_overrides(R)
     out = []
     pf = R.L.enums['PathFragment']
-    for n in range(0, maxpath + 1):
+    for n, nloc in [(n_, l_) for n_ in range(0, maxpath + 1) for l_ in (0, 1, 2)]:
         has_path = z3.BitVec(f'ed_hp{n}', 8)
         kinds = [z3.BitVec(f'ed_k{n}_{i}', 8) for i in range(n)]
         keys = [z3.String(f'ed_key{n}_{i}') for i in range(n)]
@@ -2809,29 +2810,32 @@ def k_error_display(R, maxpath):
         msg = z3.String(f'ed_msg{n}')
         has_loc = z3.BitVec(f'ed_hl{n}', 8)
         line, col = z3.BitVec(f'ed_line{n}', 32), z3.BitVec(f'ed_col{n}', 32)
+        line2, col2 = z3.BitVec(f'ed_line2_{n}', 32), z3.BitVec(f'ed_col2_{n}', 32)
         holder = {}
 
         def setup(st, B):
             st.pc += [z3.ULT(has_path, 2), z3.ULT(has_loc, 2)] + [z3.ULT(k_, 2) for k_ in kinds]
             frags = [SymEnum(kinds[i], {pf.index('Key'): (StrV(keys[i]),), pf.index('Index'): (idxs[i],)}) for i in range(n)]
-            loc = B.struct('Location', line=line, column=col)
-            err = B.struct('Error', message=StrV(msg), locations=SymEnum(has_loc, {0: (), 1: (VecV([loc]),)}), path=SymEnum(has_path, {0: (), 1: (VecV(frags),)}), extensions=none())
+            locs = [B.struct('Location', line=line, column=col), B.struct('Location', line=line2, column=col2)][:nloc]
+            err = B.struct('Error', message=StrV(msg), locations=SymEnum(has_loc, {0: (), 1: (VecV(locs),)}), path=SymEnum(has_path, {0: (), 1: (VecV(frags),)}), extensions=none())
             fm = B.cell(Agg(None, [StrV('')], 'Formatter'))
             holder['fm'] = fm
             R.vm.push_call(st, f, [B.cell(err), fm], None, None)
-        outs, _ = R.explore(f'<Error as Display>::fmt (path length {n})', setup)
+        outs, _ = R.explore(f'<Error as Display>::fmt (path length {n}, {nloc} locations)', setup)
         def i2s(x):
             memo = R.vm.__dict__.setdefault('dec_memo', {})
             key = z3.simplify(x).sexpr()
             if key not in memo:
                 memo[key] = z3.String(f'decimal({key[:24]})#{len(memo)}')
+                R.vm.__dict__.setdefault('dec_terms', {})[key] = z3.simplify(x)
             return memo[key]
         seg = [z3.If(kinds[i] == pf.index('Key'), keys[i], i2s(idxs[i])) for i in range(n)]
         joined = z3.StringVal('')
         for i, s_ in enumerate(seg):
             joined = s_ if i == 0 else z3.Concat(joined, z3.StringVal('/'), s_)
         path_str = z3.If(has_path == 1, joined, z3.StringVal('<query>'))
-        l_, c_ = z3.If(has_loc == 1, i2s(line), i2s(bv(0, 32))), z3.If(has_loc == 1, i2s(col), i2s(bv(0, 32)))
+        first = z3.And(has_loc == 1, z3.BoolVal(nloc > 0))       # the first location when there is one, 0:0 otherwise
+        l_, c_ = z3.If(first, i2s(line), i2s(bv(0, 32))), z3.If(first, i2s(col), i2s(bv(0, 32)))
         want = z3.Concat(path_str, z3.StringVal(':'), l_, z3.StringVal(':'), c_, z3.StringVal(': '), msg)
         for o in outs:
             if o.kind != 'return':
@@ -2844,6 +2848,15 @@ def k_error_display(R, maxpath):
             dec_ok = []
             for v_ in R.vm.__dict__.get('dec_memo', {}).values():
                 dec_ok += [z3.Length(v_) > 0, z3.Not(z3.SuffixOf(z3.StringVal('/'), v_))]
+            # ... and that rendering is a function of the integer, and an injective one
+            terms = R.vm.__dict__.get('dec_terms', {})
+            memo_ = R.vm.__dict__.get('dec_memo', {})
+            ks = [k for k in memo_ if k in terms]
+            for a_ in range(len(ks)):
+                for b_ in range(a_ + 1, len(ks)):
+                    ta, tb = terms[ks[a_]], terms[ks[b_]]
+                    if ta.sort() == tb.sort():
+                        dec_ok.append((ta == tb) == (memo_[ks[a_]] == memo_[ks[b_]]))
             m = R.prove('error_display', o, z3.Implies(z3.And(*dec_ok) if dec_ok else z3.BoolVal(True), got == want), f'path length {n}')
             if m is not None:
                 ev = lambda x: m.eval(x, model_completion=True)
@@ -2851,8 +2864,8 @@ def k_error_display(R, maxpath):
                 if ev(has_path).as_long() == 1:
                     path = [ev(keys[i]).as_string() if ev(kinds[i]).as_long() == pf.index('Key') else ev(idxs[i]).as_signed_long() for i in range(n)]
                 out.append(dict(kernel='error_display', prop='C15', what='Display output differs from `path:line:column: message`', path=path, message=ev(msg).as_string(),
-                                location=[ev(line).as_signed_long(), ev(col).as_signed_long()] if ev(has_loc).as_long() == 1 else None,
+                                location=None if ev(has_loc).as_long() != 1 else [[ev(line).as_signed_long(), ev(col).as_signed_long()], [ev(line2).as_signed_long(), ev(col2).as_signed_long()]][:nloc],
                                 got=ev(got).as_string(), want=ev(want).as_string()))
-        R.sample(dict(kernel='error_display', path_length=n, paths=len(outs)))
+        R.sample(dict(kernel='error_display', path_length=n, locations=nloc, paths=len(outs)))
     R.vm.overrides = []
     return out
